@@ -1,1 +1,1099 @@
-(** Proofs/FsRewriteProofs.v — placeholder, to be written. *)
+(** Proofs/FsRewriteProofs.v — lemmas about Model/FsRewrite.v (C15). *)
+From PV Require Import FsRewrite.
+From Coq Require Import Lia.
+Open Scope string_scope.
+
+(** * Directories *)
+Lemma lookup_dset_same n b d : lookup n (dset n b d) = Some b.
+Proof.
+  induction d as [|[m c] r IH]; simpl.
+  - now rewrite String.eqb_refl.
+  - destruct (String.eqb n m) eqn:E; simpl; rewrite E; auto.
+Qed.
+
+Lemma lookup_dset_other n m b d : n <> m -> lookup m (dset n b d) = lookup m d.
+Proof.
+  intros H. induction d as [|[x c] r IH]; simpl.
+  - destruct (String.eqb m n) eqn:E; [apply String.eqb_eq in E; congruence | reflexivity].
+  - destruct (String.eqb n x) eqn:E; simpl.
+    + apply String.eqb_eq in E; subst x.
+      destruct (String.eqb m n) eqn:E2; [apply String.eqb_eq in E2; congruence | reflexivity].
+    + now rewrite IH.
+Qed.
+
+Lemma lookup_dset n m b d :
+  lookup m (dset n b d) = if String.eqb m n then Some b else lookup m d.
+Proof.
+  destruct (String.eqb m n) eqn:E.
+  - apply String.eqb_eq in E; subst. apply lookup_dset_same.
+  - apply lookup_dset_other. intros ->. now rewrite String.eqb_refl in E.
+Qed.
+
+Lemma lookup_dremove_same n d : lookup n (dremove n d) = None.
+Proof.
+  induction d as [|[m c] r IH]; simpl; auto.
+  destruct (String.eqb n m) eqn:E; simpl; auto. now rewrite E.
+Qed.
+
+Lemma lookup_dremove_other n m d : n <> m -> lookup m (dremove n d) = lookup m d.
+Proof.
+  intros H. induction d as [|[x c] r IH]; simpl; auto.
+  destruct (String.eqb n x) eqn:E; simpl.
+  - apply String.eqb_eq in E; subst x.
+    destruct (String.eqb m n) eqn:E2; [apply String.eqb_eq in E2; congruence | exact IH].
+  - now rewrite IH.
+Qed.
+
+Lemma lookup_dremove n m d :
+  lookup m (dremove n d) = if String.eqb m n then None else lookup m d.
+Proof.
+  destruct (String.eqb m n) eqn:E.
+  - apply String.eqb_eq in E; subst. apply lookup_dremove_same.
+  - apply lookup_dremove_other. intros ->. now rewrite String.eqb_refl in E.
+Qed.
+
+(** extensional equality of directories *)
+Definition deq (d d' : dir) : Prop := forall q, lookup q d = lookup q d'.
+
+Lemma deq_refl d : deq d d.
+Proof. intro; reflexivity. Qed.
+
+Lemma deq_dset p b d d' : deq d d' -> deq (dset p b d) (dset p b d').
+Proof. intros H q. rewrite !lookup_dset. destruct (String.eqb q p); auto. Qed.
+
+(** * The concrete name supply is fresh *)
+Lemma length_append a b : String.length (a ++ b) = String.length a + String.length b.
+Proof. induction a; simpl; auto. Qed.
+
+Lemma length_repeat_char c n : String.length (repeat_char c n) = n.
+Proof. induction n; simpl; auto. Qed.
+
+Lemma lookup_some_maxlen n d b : lookup n d = Some b -> String.length n <= maxlen d.
+Proof.
+  induction d as [|[m c] r IH]; simpl; [discriminate|].
+  destruct (String.eqb n m) eqn:E.
+  - apply String.eqb_eq in E; subst. lia.
+  - intros H. specialize (IH H). lia.
+Qed.
+
+Lemma default_namer_fresh : fresh_namer default_namer.
+Proof.
+  intros d pre. unfold default_namer.
+  destruct (lookup _ d) eqn:E; [|reflexivity].
+  apply lookup_some_maxlen in E.
+  rewrite !length_append, length_repeat_char in E. simpl in E. lia.
+Qed.
+
+(** * Paths *)
+Lemma dirpart_basename s : dirpart s ++ basename s = s.
+Proof.
+  induction s as [|c r IH]; [reflexivity|].
+  cbn [dirpart basename contains_char].
+  destruct (contains_char "/" r) eqn:E.
+  - rewrite Bool.orb_true_r. simpl. now rewrite IH.
+  - rewrite Bool.orb_false_r. destruct (Ascii.eqb "/" c) eqn:E2.
+    + apply Ascii.eqb_eq in E2; subst c. simpl.
+      f_equal. clear IH. destruct r as [|c' r']; [reflexivity|].
+      simpl in E. simpl. now rewrite E.
+    + assert (Ascii.eqb c "/" = false) as ->.
+      { rewrite Ascii.eqb_sym. exact E2. }
+      reflexivity.
+Qed.
+
+(** * Clean-up paths never touch the directory *)
+Definition core_eq (s s' : st) : Prop :=
+  sd s' = sd s /\ nrep s' = nrep s /\ wname s' = wname s.
+
+Lemma core_eq_refl s : core_eq s s.
+Proof. repeat split. Qed.
+
+Lemma core_eq_trans a b c : core_eq a b -> core_eq b c -> core_eq a c.
+Proof. unfold core_eq. intros (?&?&?) (?&?&?). repeat split; congruence. Qed.
+
+Lemma core_set_src b s : core_eq s (set_src b s).
+Proof. repeat split. Qed.
+
+Lemma core_set_w ts s : core_eq s (set_w ts s).
+Proof.
+  unfold set_w, core_eq, wname. destruct (wh s) as [[t x]|] eqn:E; simpl; rewrite ?E; auto.
+Qed.
+
+Ltac fa := repeat (first [apply Forall_nil | apply Forall_cons]).
+
+Ltac fa_core :=
+  repeat (first [apply Forall_nil | apply Forall_cons]);
+  try first [ assumption
+            | apply core_set_src
+            | eapply core_eq_trans; [eassumption | apply core_set_src] ].
+
+Lemma unwind_core F n s e : Forall (core_eq s) (all_states (unwind F n s e)).
+Proof.
+  unfold unwind, all_states.
+  pose proof (core_eq_refl s) as R.
+  pose proof (core_set_w TBroken s) as RB. pose proof (core_set_w TClosed s) as RC.
+  destruct (wh_is_open s).
+  - destruct (F n); simpl.
+    + destruct (src_open (set_w TClosed s)) eqn:O; [destruct (F (S n))|]; simpl; fa_core.
+    + destruct (src_open (set_w TBroken s)) eqn:O; [destruct (F (S n))|]; simpl; fa_core.
+    + fa_core.
+  - destruct (src_open s); [destruct (F n)|]; simpl; fa_core.
+Qed.
+
+Lemma unwind_not_done F n s e : outc (unwind F n s e) <> Done.
+Proof.
+  unfold unwind.
+  destruct (wh_is_open s).
+  - destruct (F n); simpl.
+    + destruct (src_open (set_w TClosed s)); [destruct (F (S n))|]; simpl; discriminate.
+    + destruct (src_open (set_w TBroken s)); [destruct (F (S n))|]; simpl; discriminate.
+    + discriminate.
+  - destruct (src_open s); [destruct (F n)|]; simpl; discriminate.
+Qed.
+
+Lemma unwind_stop F n s e : stop (unwind F n s e) = None.
+Proof.
+  unfold unwind.
+  destruct (wh_is_open s).
+  - destruct (F n); simpl.
+    + destruct (src_open (set_w TClosed s)); [destruct (F (S n))|]; reflexivity.
+    + destruct (src_open (set_w TBroken s)); [destruct (F (S n))|]; reflexivity.
+    + reflexivity.
+  - destruct (src_open s); [destruct (F n)|]; reflexivity.
+Qed.
+
+(** an unwinding that is not killed ends in an exception *)
+Lemma unwind_outcome F n s e :
+  outc (unwind F n s e) = Crashed \/ exists e', outc (unwind F n s e) = Raised e'.
+Proof.
+  unfold unwind.
+  destruct (wh_is_open s).
+  - destruct (F n); simpl.
+    + destruct (src_open (set_w TClosed s)); [destruct (F (S n))|]; simpl; eauto.
+    + destruct (src_open (set_w TBroken s)); [destruct (F (S n))|]; simpl; eauto.
+    + eauto.
+  - destruct (src_open s); [destruct (F n)|]; simpl; eauto.
+Qed.
+
+(** * run_ops: generic facts *)
+Lemma prepend_nil r : prepend [] r = r.
+Proof. destruct r; reflexivity. Qed.
+
+Lemma all_states_prepend h r : all_states (prepend h r) = (map snd h ++ all_states r)%list.
+Proof. unfold all_states, prepend; simpl. now rewrite map_app, app_assoc. Qed.
+
+Lemma all_states_with_stop x r : all_states (with_stop x r) = all_states r.
+Proof. reflexivity. Qed.
+
+Lemma final_in_all_states r : In (final r) (all_states r).
+Proof. unfold all_states. apply in_or_app. right. now left. Qed.
+
+Lemma handler_not_done nm F o n s e : outc (handler nm F o n s e) <> Done.
+Proof.
+  destruct o; simpl; try apply unwind_not_done.
+  destruct (F n); simpl; try apply unwind_not_done. discriminate.
+Qed.
+
+Lemma handler_stop nm F o n s e : stop (handler nm F o n s e) = None.
+Proof.
+  destruct o; simpl; try apply unwind_stop.
+  destruct (F n); simpl; try apply unwind_stop. reflexivity.
+Qed.
+
+Lemma handler_plain nm F o n s e :
+  (forall d, o <> Replace d) -> handler nm F o n s e = unwind F n s e.
+Proof. destruct o; intros H; try reflexivity. exfalso. eapply H; reflexivity. Qed.
+
+(** the main line composes: running [pre ++ post] is running [pre] and, if that completes,
+    [post] from where it ended *)
+Lemma run_ops_app nm F pre post : forall n s,
+  run_ops nm F (pre ++ post) n s =
+  match outc (run_ops nm F pre n s) with
+  | Done => prepend (hist (run_ops nm F pre n s))
+                    (run_ops nm F post (next (run_ops nm F pre n s)) (final (run_ops nm F pre n s)))
+  | _ => run_ops nm F pre n s
+  end.
+Proof.
+  induction pre as [|o pre IH]; intros n s.
+  - simpl. now rewrite prepend_nil.
+  - cbn [app run_ops]. destruct (visible o).
+    + destruct (F n).
+      * rewrite IH. cbn [outc prepend].
+        destruct (outc (run_ops nm F pre (S n) (exec nm o s))); reflexivity.
+      * cbn [outc with_stop prepend].
+        destruct (outc (handler nm F o (S n) (fail_effect o s) (EInj n))) eqn:E; try reflexivity.
+        exfalso. eapply handler_not_done; eauto.
+      * reflexivity.
+    + cbn [outc with_stop].
+      destruct (outc (unwind F n s (data_exn o))) eqn:E; try reflexivity.
+      exfalso. eapply unwind_not_done; eauto.
+Qed.
+
+Lemma run_ops_done nm F ops : forall n s,
+  outc (run_ops nm F ops n s) = Done ->
+  stop (run_ops nm F ops n s) = None /\ Forall (fun o => visible o = true) ops.
+Proof.
+  induction ops as [|o ops IH]; intros n s; cbn [run_ops].
+  - intros _. split; [reflexivity | constructor].
+  - destruct (visible o) eqn:V.
+    + destruct (F n); cbn [outc with_stop prepend stop].
+      * intros H. destruct (IH _ _ H). split; auto.
+      * intros H. exfalso. eapply handler_not_done; eauto.
+      * discriminate.
+    + cbn [outc with_stop]. intros H. exfalso. eapply unwind_not_done; eauto.
+Qed.
+
+Lemma run_ops_stop_in nm F ops : forall n s k o,
+  stop (run_ops nm F ops n s) = Some (k, o) -> In o ops.
+Proof.
+  induction ops as [|o' ops IH]; intros n s k o; cbn [run_ops].
+  - discriminate.
+  - destruct (visible o').
+    + destruct (F n); cbn [with_stop prepend stop].
+      * intros H. right. eapply IH; eauto.
+      * intros H. inversion H; subst. now left.
+      * discriminate.
+    + cbn [with_stop stop]. intros H. inversion H; subst. now left.
+Qed.
+
+(** ** steps that never touch the directory *)
+Definition nosd (o : op) : bool :=
+  match o with OpenRead _ | LoadFail | CloseSrc | CloseW => true | _ => false end.
+
+Lemma exec_nosd nm o s : nosd o = true -> core_eq s (exec nm o s).
+Proof.
+  destruct o; simpl; try discriminate; intros _;
+    first [apply core_set_src | apply core_set_w | apply core_eq_refl].
+Qed.
+
+Lemma fail_effect_core o s : core_eq s (fail_effect o s).
+Proof.
+  destruct o; simpl; first [apply core_set_src | apply core_set_w | apply core_eq_refl].
+Qed.
+
+Lemma Forall_core_trans s s1 l : core_eq s s1 -> Forall (core_eq s1) l -> Forall (core_eq s) l.
+Proof.
+  intros H. apply Forall_impl. intros a Ha. eapply core_eq_trans; eauto.
+Qed.
+
+Lemma run_nosd nm F ops : Forall (fun o => nosd o = true) ops ->
+  forall n s, Forall (core_eq s) (all_states (run_ops nm F ops n s)).
+Proof.
+  induction 1 as [|o ops Ho Hops IH]; intros n s; cbn [run_ops].
+  - unfold all_states; simpl. repeat constructor.
+  - destruct (visible o).
+    + destruct (F n).
+      * rewrite all_states_prepend. simpl. constructor; [apply core_eq_refl|].
+        eapply Forall_core_trans; [apply exec_nosd; exact Ho | apply IH].
+      * rewrite all_states_with_stop, all_states_prepend. simpl.
+        constructor; [apply core_eq_refl|].
+        rewrite handler_plain by (intros d ->; discriminate).
+        eapply Forall_core_trans; [apply fail_effect_core | apply unwind_core].
+      * unfold all_states; simpl. repeat constructor.
+    + rewrite all_states_with_stop. apply unwind_core.
+Qed.
+
+(** ** steps between the creation of the temp file and the rename: they only ever touch the
+    file behind the write handle, which keeps existing *)
+Definition classB (o : op) : bool :=
+  match o with Write _ | FmtFail | CloseW | CloseSrc => true | _ => false end.
+
+Definition relB (t : name) (s s' : st) : Prop :=
+  nrep s' = nrep s /\ wname s' = Some t /\
+  (forall q, q <> t -> lookup q (sd s') = lookup q (sd s)) /\ lookup t (sd s') <> None.
+
+Lemma relB_core t s s1 s2 : relB t s s1 -> core_eq s1 s2 -> relB t s s2.
+Proof.
+  intros (A & B & C & D) (E & G & H). repeat split.
+  - congruence.
+  - congruence.
+  - intros q Hq. rewrite E. auto.
+  - rewrite E. exact D.
+Qed.
+
+Lemma relB_trans t s s1 s2 : relB t s s1 -> relB t s1 s2 -> relB t s s2.
+Proof.
+  intros (A & B & C & D) (A' & B' & C' & D'). repeat split; try congruence.
+  intros q Hq. rewrite C' by auto. auto.
+Qed.
+
+Lemma relB_refl t s : wname s = Some t -> lookup t (sd s) <> None -> relB t s s.
+Proof. intros. repeat split; auto. Qed.
+
+Lemma exec_classB nm o s t :
+  classB o = true -> wname s = Some t -> lookup t (sd s) <> None -> relB t s (exec nm o s).
+Proof.
+  intros Ho Hw Ht.
+  destruct o; simpl in Ho; try discriminate.
+  - (* CloseSrc *) eapply relB_core; [apply relB_refl; auto | apply core_set_src].
+  - (* FmtFail *) apply relB_refl; auto.
+  - (* Write *)
+    unfold wname in Hw. simpl. destruct (wh s) as [[t' x]|] eqn:W; [|discriminate].
+    inversion Hw; subst t'.
+    destruct (lookup t (sd s)) as [b|] eqn:L; [|congruence].
+    unfold relB, set_sd, wname; simpl. rewrite W. repeat split.
+    + intros q Hq. apply lookup_dset_other. congruence.
+    + rewrite lookup_dset_same. discriminate.
+  - (* CloseW *) eapply relB_core; [apply relB_refl; auto | apply core_set_w].
+Qed.
+
+Lemma Forall_relB_trans t s s1 l : relB t s s1 -> Forall (relB t s1) l -> Forall (relB t s) l.
+Proof. intros H. apply Forall_impl. intros a Ha. eapply relB_trans; eauto. Qed.
+
+Lemma Forall_relB_core t s s1 l : relB t s s1 -> Forall (core_eq s1) l -> Forall (relB t s) l.
+Proof. intros H. apply Forall_impl. intros a Ha. eapply relB_core; eauto. Qed.
+
+Lemma run_classB nm F t ops : Forall (fun o => classB o = true) ops ->
+  forall n s, wname s = Some t -> lookup t (sd s) <> None ->
+  Forall (relB t s) (all_states (run_ops nm F ops n s)).
+Proof.
+  induction 1 as [|o ops Ho Hops IH]; intros n s Hw Ht; cbn [run_ops].
+  - unfold all_states; simpl. repeat constructor; auto.
+  - pose proof (relB_refl t s Hw Ht) as R.
+    destruct (visible o).
+    + destruct (F n).
+      * rewrite all_states_prepend. simpl. constructor; [exact R|].
+        pose proof (exec_classB nm o s t Ho Hw Ht) as E.
+        eapply Forall_relB_trans; [exact E|].
+        destruct E as (_ & E2 & _ & E4). apply IH; auto.
+      * rewrite all_states_with_stop, all_states_prepend. simpl. constructor; [exact R|].
+        rewrite handler_plain by (intros d ->; discriminate).
+        eapply Forall_relB_core; [exact R|].
+        eapply Forall_core_trans; [apply fail_effect_core | apply unwind_core].
+      * unfold all_states; simpl. repeat constructor; auto.
+    + rewrite all_states_with_stop. eapply Forall_relB_core; [exact R | apply unwind_core].
+Qed.
+
+(** ** the write loop: if it completes, the temp file holds every chunk, in order *)
+Lemma append_nil_r (s : string) : s ++ "" = s.
+Proof. induction s; simpl; congruence. Qed.
+
+Lemma append_assoc (a b c : string) : (a ++ b) ++ c = a ++ (b ++ c).
+Proof. induction a; simpl; congruence. Qed.
+
+Lemma run_items_done nm F tail : Forall (fun o => nosd o = true) tail ->
+  forall its n s t b0,
+  wname s = Some t -> lookup t (sd s) = Some b0 ->
+  outc (run_ops nm F (map item_op its ++ tail) n s) = Done ->
+  exists c, concat_items its = Some c /\
+            lookup t (sd (final (run_ops nm F (map item_op its ++ tail) n s))) = Some (b0 ++ c) /\
+            wname (final (run_ops nm F (map item_op its ++ tail) n s)) = Some t.
+Proof.
+  intros Htail. induction its as [|[c|] its IH]; intros n s t b0 Hw Ht Hd.
+  - simpl in *. exists "". split; [reflexivity|].
+    pose proof (run_nosd nm F tail Htail n s) as H.
+    rewrite Forall_forall in H. destruct (H _ (final_in_all_states _)) as (E1 & _ & E3).
+    rewrite E1, E3, append_nil_r. auto.
+  - cbn [map app item_op run_ops visible] in *.
+    destruct (F n).
+    + cbn [outc prepend final] in *.
+      assert (W : wname (exec nm (Write c) s) = Some t /\
+                  lookup t (sd (exec nm (Write c) s)) = Some (b0 ++ c)).
+      { unfold wname in Hw. simpl. destruct (wh s) as [[t' x]|] eqn:W; [|discriminate].
+        inversion Hw; subst t'. rewrite Ht. unfold set_sd, wname; simpl. rewrite W.
+        split; [reflexivity | apply lookup_dset_same]. }
+      destruct W as [W1 W2].
+      destruct (IH _ _ _ _ W1 W2 Hd) as (c' & C1 & C2 & C3).
+      exists (c ++ c'). cbn [concat_items]. rewrite C1. split; [reflexivity|].
+      rewrite C2, append_assoc. auto.
+    + cbn [outc with_stop prepend] in Hd. exfalso. eapply handler_not_done; eauto.
+    + discriminate.
+  - cbn [map app item_op run_ops visible] in *. cbn [outc with_stop] in Hd.
+    exfalso. eapply unwind_not_done; eauto.
+Qed.
+
+(** * One in-place rewrite: A ++ [MkTemp] ++ (writes ++ closes) ++ [Replace] *)
+Definition classA (o : op) : bool :=
+  match o with OpenRead _ | LoadFail | CloseSrc => true | _ => false end.
+Definition tailT (o : op) : bool :=
+  match o with CloseW | CloseSrc => true | _ => false end.
+(** where the main line can fail: before the temp file exists ... *)
+Definition early (o : op) : bool :=
+  match o with OpenRead _ | LoadFail | MkTemp _ => true | _ => false end.
+(** ... or while it is being filled and closed *)
+Definition late (o : op) : bool :=
+  match o with Write _ | FmtFail | CloseW => true | _ => false end.
+
+(** before the rename: nothing but the temp name [t] differs from the start *)
+Definition phaseB (t : name) (s0 s : st) : Prop :=
+  nrep s = nrep s0 /\ forall q, q <> t -> lookup q (sd s) = lookup q (sd s0).
+(** after it: the start directory with [src] holding the complete new bytes, nothing else *)
+Definition phaseC (src : name) (nw : bytes) (s0 s : st) : Prop :=
+  nrep s = S (nrep s0) /\
+  forall q, lookup q (sd s) = if String.eqb q src then Some nw else lookup q (sd s0).
+
+Section OneFile.
+Variables (nm : namer) (F : nat -> fmode) (src : name) (s0 : st) (nwo : option bytes).
+Let t := nm (sd s0) (dirpart src).
+Hypothesis Hfresh : lookup t (sd s0) = None.
+Hypothesis Hsrc : lookup src (sd s0) <> None.
+
+Definition okst (s : st) : Prop :=
+  phaseB t s0 s \/ exists nw, nwo = Some nw /\ phaseC src nw s0 s.
+
+Record Spec (r : result) : Prop := mkSpec {
+  sp_states : Forall okst (all_states r);
+  sp_done : outc r = Done -> exists nw, nwo = Some nw /\ phaseC src nw s0 (final r);
+  sp_notdone : outc r <> Done -> phaseB t s0 (final r);
+  sp_early : forall k o, stop r = Some (k, o) -> early o = true -> sd (final r) = sd s0;
+  sp_replace : forall k d, stop r = Some (k, Replace d) -> F (S k) = NoFault ->
+               deq (sd (final r)) (sd s0);
+  sp_late : forall k o, stop r = Some (k, o) -> late o = true ->
+            lookup t (sd (final r)) <> None
+}.
+
+Lemma t_neq_src : t <> src.
+Proof. intros E. rewrite E in Hfresh. congruence. Qed.
+
+Lemma phaseB_core s s' : phaseB t s0 s -> core_eq s s' -> phaseB t s0 s'.
+Proof.
+  intros (A & B) (E1 & E2 & _). split; [congruence|]. intros q Hq. rewrite E1. auto.
+Qed.
+
+Lemma phaseB_relB s s' : phaseB t s0 s -> relB t s s' -> phaseB t s0 s'.
+Proof.
+  intros (A & B) (E1 & _ & E3 & _). split; [congruence|].
+  intros q Hq. rewrite E3 by auto. auto.
+Qed.
+
+Lemma Spec_prepend h r :
+  Forall (phaseB t s0) (map snd h) -> Spec r -> Spec (prepend h r).
+Proof.
+  intros Hh [A B C D E G]. constructor; auto.
+  rewrite all_states_prepend. apply Forall_app. split; [|exact A].
+  eapply Forall_impl; [|exact Hh]. intros a Ha. now left.
+Qed.
+
+(** a run whose states all keep the directory of a phase-B state, and that does not complete *)
+Lemma Spec_stuck sB r :
+  phaseB t s0 sB -> Forall (core_eq sB) (all_states r) -> outc r <> Done ->
+  (forall k o, stop r = Some (k, o) -> early o = true -> sd sB = sd s0) ->
+  (forall k d, stop r = Some (k, Replace d) -> False) ->
+  (forall k o, stop r = Some (k, o) -> late o = true -> lookup t (sd sB) <> None) ->
+  Spec r.
+Proof.
+  intros HB Hall Hnd He Hr Hl.
+  assert (Hfin : core_eq sB (final r)).
+  { rewrite Forall_forall in Hall. apply Hall, final_in_all_states. }
+  constructor.
+  - eapply Forall_impl; [|exact Hall]. intros a Ha. left. eapply phaseB_core; eauto.
+  - intros H. contradiction.
+  - intros _. eapply phaseB_core; eauto.
+  - intros k o H1 H2. destruct Hfin as (E & _). rewrite E. eauto.
+  - intros k d H1 _. exfalso. eauto.
+  - intros k o H1 H2. destruct Hfin as (E & _). rewrite E. eauto.
+Qed.
+
+(** the rename step *)
+Lemma spec_replace n sB c :
+  nwo = Some c -> phaseB t s0 sB -> wname sB = Some t -> lookup t (sd sB) = Some c ->
+  Spec (run_ops nm F [Replace src] n sB).
+Proof.
+  intros Hn HB Hw Ht.
+  cbn [run_ops visible]. destruct (F n) eqn:Fn.
+  - (* the rename happens *)
+    assert (HC : phaseC src c s0 (exec nm (Replace src) sB)).
+    { unfold wname in Hw. simpl. destruct (wh sB) as [[t' x]|] eqn:W; [|discriminate].
+      inversion Hw; subst t'. rewrite Ht. destruct HB as (B1 & B2).
+      split; simpl; [congruence|].
+      intros q. rewrite lookup_dremove, lookup_dset.
+      destruct (String.eqb q t) eqn:Eq.
+      - apply String.eqb_eq in Eq; subst q.
+        destruct (String.eqb t src) eqn:E2.
+        + apply String.eqb_eq in E2. exfalso. now apply t_neq_src.
+        + now rewrite Hfresh.
+      - destruct (String.eqb q src); [reflexivity|].
+        apply B2. intros ->. now rewrite String.eqb_refl in Eq. }
+    constructor; cbn [prepend run_ops final outc stop].
+    + unfold all_states; simpl. constructor; [now left|].
+      constructor; [|constructor]. right. eauto.
+    + intros _. eauto.
+    + intros H. congruence.
+    + discriminate.
+    + discriminate.
+    + discriminate.
+  - (* it raises: move_temp_file's handler *)
+    cbn [fail_effect handler].
+    destruct (F (S n)) eqn:Fn1.
+    + (* the temp is removed *)
+      set (sR := exec nm Remove sB).
+      assert (HR : phaseB t s0 sR /\ deq (sd sR) (sd s0)).
+      { unfold sR, wname in *. simpl. destruct (wh sB) as [[t' x]|] eqn:W; [|discriminate].
+        inversion Hw; subst t'. destruct HB as (B1 & B2). unfold phaseB, deq, set_sd; simpl. split.
+        - split; [exact B1|]. intros q Hq. rewrite lookup_dremove_other by congruence. auto.
+        - intros q. rewrite lookup_dremove. destruct (String.eqb q t) eqn:Eq.
+          + apply String.eqb_eq in Eq; subst q. now rewrite Hfresh.
+          + apply B2. intros ->. now rewrite String.eqb_refl in Eq. }
+      destruct HR as [HR1 HR2].
+      pose proof (unwind_core F (S (S n)) sR (EInj n)) as U.
+      assert (Hfin : core_eq sR (final (unwind F (S (S n)) sR (EInj n)))).
+      { rewrite Forall_forall in U. apply U, final_in_all_states. }
+      constructor; cbn [with_stop prepend final outc stop].
+      * rewrite all_states_with_stop, !all_states_prepend. simpl.
+        constructor; [now left|]. constructor; [now left|].
+        eapply Forall_impl; [|exact U]. intros a Ha. left. eapply phaseB_core; eauto.
+      * intros H. exfalso. eapply unwind_not_done; eauto.
+      * intros _. eapply phaseB_core; eauto.
+      * intros k o H. inversion H; subst. discriminate.
+      * intros k d H _. destruct Hfin as (E & _). rewrite E. exact HR2.
+      * intros k o H. inversion H; subst. discriminate.
+    + (* the remove fails too: logged, the first error propagates, the temp stays *)
+      pose proof (unwind_core F (S (S n)) sB (EInj n)) as U.
+      assert (Hfin : core_eq sB (final (unwind F (S (S n)) sB (EInj n)))).
+      { rewrite Forall_forall in U. apply U, final_in_all_states. }
+      constructor; cbn [with_stop prepend final outc stop].
+      * rewrite all_states_with_stop, !all_states_prepend. simpl.
+        constructor; [now left|]. constructor; [now left|].
+        eapply Forall_impl; [|exact U]. intros a Ha. left. eapply phaseB_core; eauto.
+      * intros H. exfalso. eapply unwind_not_done; eauto.
+      * intros _. eapply phaseB_core; eauto.
+      * intros k o H. inversion H; subst. discriminate.
+      * intros k d H H2. inversion H; subst. congruence.
+      * intros k o H. inversion H; subst. discriminate.
+    + (* killed inside the handler *)
+      constructor; cbn [with_stop prepend final outc stop].
+      * unfold all_states; simpl. fa; now left.
+      * discriminate.
+      * intros _. exact HB.
+      * intros k o H. inversion H; subst. discriminate.
+      * intros k d H H2. inversion H; subst. congruence.
+      * intros k o H. inversion H; subst. discriminate.
+  - (* killed at the rename *)
+    constructor; cbn [final outc stop].
+    + unfold all_states; simpl. fa; now left.
+    + discriminate.
+    + intros _. exact HB.
+    + discriminate.
+    + discriminate.
+    + discriminate.
+Qed.
+
+(** filling and closing the temp file, then the rename *)
+Lemma spec_fill its tail n s2 :
+  Forall (fun o => tailT o = true) tail ->
+  nwo = concat_items its ->
+  phaseB t s0 s2 -> wname s2 = Some t -> lookup t (sd s2) = Some "" ->
+  Spec (run_ops nm F ((map item_op its ++ tail) ++ [Replace src]) n s2).
+Proof.
+  intros Htail Hn HB Hw Ht.
+  assert (HclB : Forall (fun o => classB o = true) (map item_op its ++ tail)).
+  { apply Forall_app. split.
+    - rewrite Forall_forall. intros o Ho. apply in_map_iff in Ho.
+      destruct Ho as ([c|] & <- & _); reflexivity.
+    - eapply Forall_impl; [|exact Htail]. intros o; destruct o; simpl; congruence. }
+  assert (Hnosd : Forall (fun o => nosd o = true) tail).
+  { eapply Forall_impl; [|exact Htail]. intros o; destruct o; simpl; congruence. }
+  assert (Ht' : lookup t (sd s2) <> None) by congruence.
+  pose proof (run_classB nm F t _ HclB n s2 Hw Ht') as HBs.
+  rewrite run_ops_app.
+  set (rB := run_ops nm F (map item_op its ++ tail) n s2) in *.
+  assert (Hfin : relB t s2 (final rB)).
+  { rewrite Forall_forall in HBs. apply HBs, final_in_all_states. }
+  destruct (outc rB) eqn:Ho.
+  - (* the temp file is complete and closed *)
+    destruct (run_items_done nm F tail Hnosd its n s2 t "" Hw Ht Ho) as (c & C1 & C2 & C3).
+    fold rB in C2, C3. simpl in C2.
+    apply Spec_prepend.
+    + assert (Hall : Forall (relB t s2) (map snd (hist rB))).
+      { unfold all_states in HBs. apply Forall_app in HBs. tauto. }
+      eapply Forall_impl; [|exact Hall]. intros a Ha. eapply phaseB_relB; eauto.
+    + eapply spec_replace; eauto.
+      * congruence.
+      * eapply phaseB_relB; eauto.
+  - (* it raised *)
+    constructor.
+    + eapply Forall_impl; [|exact HBs]. intros a Ha. left. eapply phaseB_relB; eauto.
+    + congruence.
+    + intros _. eapply phaseB_relB; eauto.
+    + intros k o H1 H2. apply run_ops_stop_in in H1.
+      rewrite Forall_forall in HclB. specialize (HclB _ H1).
+      destruct o; simpl in *; discriminate.
+    + intros k d H1 _. apply run_ops_stop_in in H1.
+      rewrite Forall_forall in HclB. specialize (HclB _ H1). discriminate.
+    + intros k o _ _. destruct Hfin as (_ & _ & _ & E). exact E.
+  - (* killed *)
+    constructor.
+    + eapply Forall_impl; [|exact HBs]. intros a Ha. left. eapply phaseB_relB; eauto.
+    + congruence.
+    + intros _. eapply phaseB_relB; eauto.
+    + intros k o H1 H2. apply run_ops_stop_in in H1.
+      rewrite Forall_forall in HclB. specialize (HclB _ H1).
+      destruct o; simpl in *; discriminate.
+    + intros k d H1 _. apply run_ops_stop_in in H1.
+      rewrite Forall_forall in HclB. specialize (HclB _ H1). discriminate.
+    + intros k o _ _. destruct Hfin as (_ & _ & _ & E). exact E.
+  - (* not produced by run_ops, but harmless *)
+    constructor.
+    + eapply Forall_impl; [|exact HBs]. intros a Ha. left. eapply phaseB_relB; eauto.
+    + congruence.
+    + intros _. eapply phaseB_relB; eauto.
+    + intros k o H1 H2. apply run_ops_stop_in in H1.
+      rewrite Forall_forall in HclB. specialize (HclB _ H1).
+      destruct o; simpl in *; discriminate.
+    + intros k d H1 _. apply run_ops_stop_in in H1.
+      rewrite Forall_forall in HclB. specialize (HclB _ H1). discriminate.
+    + intros k o _ _. destruct Hfin as (_ & _ & _ & E). exact E.
+Qed.
+
+(** creating the temp file, and the rest *)
+Lemma spec_mktemp its tail n sA :
+  Forall (fun o => tailT o = true) tail ->
+  nwo = concat_items its ->
+  core_eq s0 sA ->
+  Spec (run_ops nm F ([MkTemp src] ++ (map item_op its ++ tail) ++ [Replace src]) n sA).
+Proof.
+  intros Htail Hn HA.
+  assert (HB0 : phaseB t s0 sA).
+  { destruct HA as (E1 & E2 & _). split; [congruence|]. intros q _. now rewrite E1. }
+  cbn [app run_ops visible]. destruct (F n) eqn:Fn.
+  - (* created *)
+    replace ((MkTemp src, sA) :: nil) with ([(MkTemp src, sA)]) by reflexivity.
+    apply Spec_prepend; [simpl; fa; exact HB0|].
+    assert (Et : nm (sd sA) (dirpart src) = t).
+    { destruct HA as (E1 & _). unfold t. now rewrite E1. }
+    apply spec_fill; auto.
+    + destruct HA as (E1 & E2 & _). simpl. rewrite Et. split; [simpl; congruence|].
+      intros q Hq. simpl. rewrite lookup_dset_other by congruence. now rewrite E1.
+    + simpl. unfold wname; simpl. now rewrite Et.
+    + simpl. rewrite Et. apply lookup_dset_same.
+  - (* NamedTemporaryFile raises: nothing was created *)
+    cbn [fail_effect handler].
+    pose proof (unwind_core F (S n) sA (EInj n)) as U.
+    eapply (Spec_stuck sA).
+    + exact HB0.
+    + rewrite all_states_with_stop, all_states_prepend. simpl.
+      constructor; [apply core_eq_refl | exact U].
+    + cbn [with_stop prepend outc]. apply unwind_not_done.
+    + intros k o _ _. destruct HA as (E1 & _). exact E1.
+    + cbn [with_stop stop]. intros k d H. inversion H.
+    + cbn [with_stop stop]. intros k o H H2. inversion H; subst. discriminate.
+  - (* killed *)
+    eapply (Spec_stuck sA).
+    + exact HB0.
+    + unfold all_states; simpl. fa; apply core_eq_refl.
+    + discriminate.
+    + discriminate.
+    + discriminate.
+    + discriminate.
+Qed.
+
+(** the whole rewrite *)
+Lemma spec_all A its tail n :
+  Forall (fun o => classA o = true) A ->
+  Forall (fun o => tailT o = true) tail ->
+  nwo = concat_items its ->
+  Spec (run_ops nm F (A ++ [MkTemp src] ++ (map item_op its ++ tail) ++ [Replace src]) n s0)
+  /\ (outc (run_ops nm F (A ++ [MkTemp src] ++ (map item_op its ++ tail) ++ [Replace src]) n s0)
+      = Done -> Forall (fun o => visible o = true) A).
+Proof.
+  intros HA Htail Hn.
+  assert (HAn : Forall (fun o => nosd o = true) A).
+  { eapply Forall_impl; [|exact HA]. intros o; destruct o; simpl; congruence. }
+  pose proof (run_nosd nm F A HAn n s0) as HAs.
+  rewrite run_ops_app.
+  set (rA := run_ops nm F A n s0) in *.
+  assert (Hfin : core_eq s0 (final rA)).
+  { rewrite Forall_forall in HAs. apply HAs, final_in_all_states. }
+  assert (HB0 : phaseB t s0 s0) by (split; auto).
+  assert (Hstuck : outc rA <> Done -> Spec rA).
+  { intros Hnd. eapply (Spec_stuck s0); auto.
+    - intros k d H1. apply run_ops_stop_in in H1.
+      rewrite Forall_forall in HA. specialize (HA _ H1). discriminate.
+    - intros k o H1 H2. apply run_ops_stop_in in H1.
+      rewrite Forall_forall in HA. specialize (HA _ H1).
+      destruct o; simpl in *; discriminate. }
+  destruct (outc rA) eqn:Ho.
+  - split.
+    + apply Spec_prepend.
+      * assert (Hall : Forall (core_eq s0) (map snd (hist rA))).
+        { unfold all_states in HAs. apply Forall_app in HAs. tauto. }
+        eapply Forall_impl; [|exact Hall]. intros a Ha. eapply phaseB_core; eauto.
+      * apply spec_mktemp; auto.
+    + intros _. apply (run_ops_done nm F A n s0). exact Ho.
+  - split; [apply Hstuck; congruence | rewrite Ho; discriminate].
+  - split; [apply Hstuck; congruence | rewrite Ho; discriminate].
+  - split; [apply Hstuck; congruence | rewrite Ho; discriminate].
+Qed.
+
+End OneFile.
+
+(** * The two rewriters have that shape *)
+Lemma stream_shape pl src :
+  inplace_ops Stream pl src =
+  ([OpenRead src] ++ [MkTemp src] ++ (map item_op (items pl) ++ [CloseW; CloseSrc]) ++ [Replace src])%list.
+Proof. unfold inplace_ops. simpl. now rewrite <- app_assoc. Qed.
+
+Lemma object_shape pl src :
+  inplace_ops Object pl src =
+  (([OpenRead src] ++ load_ops pl ++ [CloseSrc]) ++ [MkTemp src]
+     ++ (map item_op (items pl) ++ [CloseW]) ++ [Replace src])%list.
+Proof. unfold inplace_ops. simpl. rewrite <- !app_assoc. reflexivity. Qed.
+
+Definition tmp_of (nm : namer) (s0 : st) (src : name) : name := nm (sd s0) (dirpart src).
+
+Theorem inplace_spec nm F k pl src s0 n :
+  fresh_namer nm -> lookup src (sd s0) <> None ->
+  Spec nm F src s0 (new_of k pl) (run_ops nm F (inplace_ops k pl src) n s0).
+Proof.
+  intros Hf Hs. pose proof (Hf (sd s0) (dirpart src)) as Ht.
+  destruct k.
+  - rewrite stream_shape.
+    refine (proj1 (spec_all nm F src s0 _ Ht Hs [OpenRead src] (items pl) [CloseW; CloseSrc] n
+                     _ _ eq_refl)); repeat constructor.
+  - destruct (load_ok pl) eqn:L.
+    + rewrite object_shape. unfold new_of. rewrite L.
+      refine (proj1 (spec_all nm F src s0 _ Ht Hs _ (items pl) [CloseW] n _ _ eq_refl));
+        [|repeat constructor].
+      unfold load_ops. rewrite L. repeat constructor.
+    + (* the payload does not parse: the run ends before a temp file exists *)
+      unfold new_of. rewrite L.
+      replace (inplace_ops Object pl src)
+        with (([OpenRead src; LoadFail] ++ [CloseSrc; MkTemp src] ++ map item_op (items pl)
+                ++ [CloseW; Replace src])%list)
+        by (unfold inplace_ops, load_ops; rewrite L; reflexivity).
+      rewrite run_ops_app.
+      set (rA := run_ops nm F [OpenRead src; LoadFail] n s0).
+      assert (Hnd : outc rA <> Done).
+      { intros H. apply run_ops_done in H. destruct H as [_ H].
+        inversion H as [|? ? _ H2]. inversion H2 as [|? ? H3 _]. discriminate. }
+      assert (Hall : Forall (core_eq s0) (all_states rA)).
+      { apply run_nosd. repeat constructor. }
+      assert (HS : Spec nm F src s0 None rA).
+      { eapply (Spec_stuck nm F src s0 None s0); auto.
+        - split; auto.
+        - intros k d H. apply run_ops_stop_in in H. simpl in H.
+          destruct H as [H|[H|[]]]; discriminate.
+        - intros k o H H2. apply run_ops_stop_in in H. simpl in H.
+          destruct H as [H|[H|[]]]; subst; discriminate. }
+      destruct (outc rA); try exact HS. congruence.
+Qed.
+
+(** ** what the property asks of a single rewrite *)
+Theorem source_old_or_new nm F k pl src old s0 n :
+  fresh_namer nm -> lookup src (sd s0) = Some old ->
+  Forall (fun s => (nrep s = nrep s0 /\ lookup src (sd s) = Some old) \/
+                   (nrep s = S (nrep s0) /\
+                    exists nw, new_of k pl = Some nw /\ lookup src (sd s) = Some nw))
+         (all_states (run_ops nm F (inplace_ops k pl src) n s0)).
+Proof.
+  intros Hf Hs.
+  assert (Hs' : lookup src (sd s0) <> None) by congruence.
+  pose proof (sp_states _ _ _ _ _ _ (inplace_spec nm F k pl src s0 n Hf Hs')) as H.
+  eapply Forall_impl; [|exact H]. intros s [(A & B)|(nw & E & A & B)].
+  - left. split; auto. rewrite B; auto.
+    intros E. pose proof (Hf (sd s0) (dirpart src)) as X. rewrite <- E in X. congruence.
+  - right. split; auto. exists nw. split; auto. rewrite B. now rewrite String.eqb_refl.
+Qed.
+
+Theorem others_untouched nm F k pl src s0 n :
+  fresh_namer nm -> lookup src (sd s0) <> None ->
+  Forall (fun s => forall q, q <> src -> q <> tmp_of nm s0 src ->
+                             lookup q (sd s) = lookup q (sd s0))
+         (all_states (run_ops nm F (inplace_ops k pl src) n s0)).
+Proof.
+  intros Hf Hs.
+  pose proof (sp_states _ _ _ _ _ _ (inplace_spec nm F k pl src s0 n Hf Hs)) as H.
+  eapply Forall_impl; [|exact H]. intros s [(A & B)|(nw & E & A & B)] q Hq Hq2.
+  - apply B. exact Hq2.
+  - rewrite B. destruct (String.eqb q src) eqn:E2; auto.
+    apply String.eqb_eq in E2. contradiction.
+Qed.
+
+Theorem success_same_entries nm F k pl src s0 n :
+  fresh_namer nm -> lookup src (sd s0) <> None ->
+  outc (run_ops nm F (inplace_ops k pl src) n s0) = Done ->
+  exists nw, new_of k pl = Some nw /\
+    forall q, lookup q (sd (final (run_ops nm F (inplace_ops k pl src) n s0)))
+              = if String.eqb q src then Some nw else lookup q (sd s0).
+Proof.
+  intros Hf Hs Hd.
+  destruct (sp_done _ _ _ _ _ _ (inplace_spec nm F k pl src s0 n Hf Hs) Hd) as (nw & E & _ & B).
+  eauto.
+Qed.
+
+Theorem failure_leaves_old nm F k pl src old s0 n :
+  fresh_namer nm -> lookup src (sd s0) = Some old ->
+  outc (run_ops nm F (inplace_ops k pl src) n s0) <> Done ->
+  lookup src (sd (final (run_ops nm F (inplace_ops k pl src) n s0))) = Some old /\
+  nrep (final (run_ops nm F (inplace_ops k pl src) n s0)) = nrep s0.
+Proof.
+  intros Hf Hs Hd.
+  assert (Hs' : lookup src (sd s0) <> None) by congruence.
+  destruct (sp_notdone _ _ _ _ _ _ (inplace_spec nm F k pl src s0 n Hf Hs') Hd) as (A & B).
+  split; auto. rewrite B; auto.
+  intros E. pose proof (Hf (sd s0) (dirpart src)) as X. unfold tmp_of in *. rewrite <- E in X.
+  congruence.
+Qed.
+
+(** the clean-up that IS there: failures before the temp exists, and a failing rename
+    whose handler's remove works *)
+Theorem raise_no_temp_partial nm F k pl src s0 n kk o :
+  fresh_namer nm -> lookup src (sd s0) <> None ->
+  stop (run_ops nm F (inplace_ops k pl src) n s0) = Some (kk, o) ->
+  early o = true \/ ((exists d, o = Replace d) /\ F (S kk) = NoFault) ->
+  deq (sd (final (run_ops nm F (inplace_ops k pl src) n s0))) (sd s0).
+Proof.
+  intros Hf Hs Hst [He|[(d & ->) Hr]].
+  - rewrite (sp_early _ _ _ _ _ _ (inplace_spec nm F k pl src s0 n Hf Hs) _ _ Hst He).
+    apply deq_refl.
+  - exact (sp_replace _ _ _ _ _ _ (inplace_spec nm F k pl src s0 n Hf Hs) _ _ Hst Hr).
+Qed.
+
+(** the clean-up that is NOT there: any failure while the temp file is being filled or
+    closed leaves it in the directory *)
+Theorem late_failure_leaves_temp nm F k pl src s0 n kk o :
+  fresh_namer nm -> lookup src (sd s0) <> None ->
+  stop (run_ops nm F (inplace_ops k pl src) n s0) = Some (kk, o) -> late o = true ->
+  lookup (tmp_of nm s0 src) (sd s0) = None /\
+  lookup (tmp_of nm s0 src) (sd (final (run_ops nm F (inplace_ops k pl src) n s0))) <> None.
+Proof.
+  intros Hf Hs Hst Hl. split; [apply Hf|].
+  exact (sp_late _ _ _ _ _ _ (inplace_spec nm F k pl src s0 n Hf Hs) _ _ Hst Hl).
+Qed.
+
+(** ** fault-free execution up to a formatting failure *)
+Lemma unwind_nofault F n s e : (forall i, F i = NoFault) ->
+  outc (unwind F n s e) = Raised e.
+Proof.
+  intros H. unfold unwind. rewrite !H.
+  destruct (wh_is_open s); [destruct (src_open (set_w TClosed s))|destruct (src_open s)];
+    reflexivity.
+Qed.
+
+Lemma run_nofault_done nm F ops : (forall i, F i = NoFault) ->
+  Forall (fun o => visible o = true) ops ->
+  forall n s, outc (run_ops nm F ops n s) = Done.
+Proof.
+  intros H. induction 1 as [|o ops Ho _ IH]; intros n s; cbn [run_ops]; [reflexivity|].
+  rewrite Ho, H. cbn [prepend outc]. apply IH.
+Qed.
+
+Lemma is_some_visible (l : list (option bytes)) :
+  Forall (fun i => i <> None) l -> Forall (fun o => visible o = true) (map item_op l).
+Proof.
+  induction 1 as [|[c|] l H _ IH]; simpl; constructor; auto; congruence.
+Qed.
+
+Theorem format_error_leaves_temp nm F k pl src old s0 n pre post :
+  fresh_namer nm -> lookup src (sd s0) = Some old ->
+  (forall i, F i = NoFault) ->
+  (k = Object -> load_ok pl = true) ->
+  items pl = (pre ++ None :: post)%list -> Forall (fun i => i <> None) pre ->
+  let r := run_ops nm F (inplace_ops k pl src) n s0 in
+  outc r = Raised EFormat /\
+  lookup src (sd (final r)) = Some old /\
+  lookup (tmp_of nm s0 src) (sd s0) = None /\
+  lookup (tmp_of nm s0 src) (sd (final r)) <> None.
+Proof.
+  intros Hf Hs HF Hl Hi Hpre r.
+  assert (Hs' : lookup src (sd s0) <> None) by congruence.
+  assert (Hshape : exists P Q, inplace_ops k pl src = (P ++ FmtFail :: Q)%list /\
+                               Forall (fun o => visible o = true) P).
+  { destruct k.
+    - exists ([OpenRead src; MkTemp src] ++ map item_op pre)%list.
+      exists (map item_op post ++ [CloseW; CloseSrc; Replace src])%list. split.
+      + unfold inplace_ops. rewrite Hi, map_app. simpl. rewrite <- !app_assoc. reflexivity.
+      + apply Forall_app. split; [repeat constructor | now apply is_some_visible].
+    - exists ([OpenRead src; CloseSrc; MkTemp src] ++ map item_op pre)%list.
+      exists (map item_op post ++ [CloseW; Replace src])%list. split.
+      + unfold inplace_ops, load_ops. rewrite (Hl eq_refl), Hi, map_app. simpl.
+        rewrite <- !app_assoc. reflexivity.
+      + apply Forall_app. split; [repeat constructor | now apply is_some_visible]. }
+  destruct Hshape as (P & Q & HPQ & HP).
+  assert (Hr : outc r = Raised EFormat /\ exists kk, stop r = Some (kk, FmtFail)).
+  { unfold r. rewrite HPQ, run_ops_app, (run_nofault_done nm F P HF HP).
+    cbn [run_ops visible prepend with_stop outc stop data_exn].
+    split; [now apply unwind_nofault | eauto]. }
+  destruct Hr as (Ho & kk & Hst).
+  split; [exact Ho|].
+  split.
+  - apply (failure_leaves_old nm F k pl src old s0 n Hf Hs). fold r. congruence.
+  - apply (late_failure_leaves_temp nm F k pl src s0 n kk FmtFail Hf Hs' Hst eq_refl).
+Qed.
+
+(** * out names another file: written directly, the source is only read *)
+Theorem direct_spec nm F k pl src out s0 n :
+  Forall (fun s => nrep s = nrep s0 /\ forall q, q <> out -> lookup q (sd s) = lookup q (sd s0))
+         (all_states (run_ops nm F (direct_ops k pl src out) n s0)).
+Proof.
+  assert (G : forall A tail, Forall (fun o => nosd o = true) A ->
+            Forall (fun o => classB o = true) tail ->
+            Forall (fun s => nrep s = nrep s0 /\
+                             forall q, q <> out -> lookup q (sd s) = lookup q (sd s0))
+              (all_states (run_ops nm F (A ++ [OpenWrite out] ++ map item_op (items pl) ++ tail) n s0))).
+  { intros A tail HA Htail.
+    pose proof (run_nosd nm F A HA n s0) as HAs.
+    assert (Pcore : forall s, core_eq s0 s ->
+              nrep s = nrep s0 /\ forall q, q <> out -> lookup q (sd s) = lookup q (sd s0)).
+    { intros s (E1 & E2 & _). split; auto. intros q _. now rewrite E1. }
+    rewrite run_ops_app. set (rA := run_ops nm F A n s0) in *.
+    assert (Hfin : core_eq s0 (final rA)).
+    { rewrite Forall_forall in HAs. apply HAs, final_in_all_states. }
+    destruct (outc rA); try (eapply Forall_impl; [|exact HAs]; auto).
+    rewrite all_states_prepend. apply Forall_app. split.
+    { unfold all_states in HAs. apply Forall_app in HAs. destruct HAs as [H _].
+      eapply Forall_impl; [|exact H]; auto. }
+    set (sA := final rA) in *. cbn [app run_ops visible]. destruct (F (next rA)).
+    - rewrite all_states_prepend. simpl. constructor; [auto|].
+      set (s2 := exec nm (OpenWrite out) sA).
+      assert (H2 : wname s2 = Some out /\ lookup out (sd s2) <> None /\
+                   nrep s2 = nrep s0 /\
+                   forall q, q <> out -> lookup q (sd s2) = lookup q (sd s0)).
+      { unfold s2; simpl. destruct Hfin as (E1 & E2 & _). repeat split; auto.
+        - rewrite lookup_dset_same. discriminate.
+        - intros q Hq. rewrite lookup_dset_other by congruence. now rewrite E1. }
+      destruct H2 as (W & L & N & Q).
+      assert (HB : Forall (fun o => classB o = true) (map item_op (items pl) ++ tail)).
+      { apply Forall_app. split; auto. rewrite Forall_forall. intros o Ho.
+        apply in_map_iff in Ho. destruct Ho as ([c|] & <- & _); reflexivity. }
+      pose proof (run_classB nm F out _ HB (S (next rA)) s2 W L) as HBs.
+      eapply Forall_impl; [|exact HBs]. intros s (B1 & _ & B3 & _). split; [congruence|].
+      intros q Hq. rewrite B3; auto.
+    - rewrite all_states_with_stop, all_states_prepend. simpl. constructor; [auto|].
+      cbn [fail_effect handler].
+      pose proof (unwind_core F (S (next rA)) sA (EInj (next rA))) as U.
+      eapply Forall_impl; [|exact U]. intros s Hs. apply Pcore.
+      eapply core_eq_trans; eauto.
+    - unfold all_states; simpl. fa; auto. }
+  destruct k; unfold direct_ops.
+  - replace ([OpenRead src; OpenWrite out] ++ map item_op (items pl) ++ [CloseW; CloseSrc])%list
+      with ([OpenRead src] ++ [OpenWrite out] ++ map item_op (items pl) ++ [CloseW; CloseSrc])%list
+      by reflexivity.
+    apply G; repeat constructor.
+  - replace ([OpenRead src] ++ load_ops pl ++ [CloseSrc; OpenWrite out]
+               ++ map item_op (items pl) ++ [CloseW])%list
+      with (([OpenRead src] ++ load_ops pl ++ [CloseSrc]) ++ [OpenWrite out]
+               ++ map item_op (items pl) ++ [CloseW])%list
+      by (rewrite <- !app_assoc; reflexivity).
+    apply G; [|repeat constructor].
+    unfold load_ops. destruct (load_ok pl); repeat constructor.
+Qed.
+
+(** * Routing: out == in is the in-place path *)
+Lemma route_no_out k pl p : file_ops k pl p NoOut = inplace_ops k pl p.
+Proof. reflexivity. Qed.
+
+Lemma route_same_file k pl p : file_ops k pl p (OutFile p) = inplace_ops k pl p.
+Proof. unfold file_ops; simpl. now rewrite String.eqb_refl. Qed.
+
+Lemma route_same_dir k pl p : file_ops k pl p (OutDir (dirpart p)) = inplace_ops k pl p.
+Proof. unfold file_ops; simpl. now rewrite dirpart_basename, String.eqb_refl. Qed.
+
+Lemma route_other_file k pl p o : o <> p -> file_ops k pl p (OutFile o) = direct_ops k pl p o.
+Proof.
+  intros H. unfold file_ops; simpl. destruct (String.eqb o p) eqn:E; auto.
+  apply String.eqb_eq in E. contradiction.
+Qed.
+
+(** * files_in_to_out: the loop over the glob result *)
+Lemma apply_new_ext xf k ps : forall d d', deq d d' -> deq (apply_new xf k ps d) (apply_new xf k ps d').
+Proof.
+  induction ps as [|p ps IH]; intros d d' H; cbn [apply_new]; [exact H|].
+  rewrite <- (H p). destruct (lookup p d) as [old|]; [|now apply IH].
+  destruct (xf old) as [pl|]; [|now apply IH].
+  destruct (new_of k pl) as [nw|]; [|now apply IH].
+  apply IH. now apply deq_dset.
+Qed.
+
+Lemma apply_new_notin xf k ps : forall d q, ~ In q ps -> lookup q (apply_new xf k ps d) = lookup q d.
+Proof.
+  induction ps as [|p ps IH]; intros d q H; cbn [apply_new]; [reflexivity|].
+  assert (Hp : p <> q) by (intros ->; apply H; now left).
+  assert (Hq : ~ In q ps) by (intros X; apply H; now right).
+  destruct (lookup p d) as [old|]; [|now apply IH].
+  destruct (xf old) as [pl|]; [|now apply IH].
+  destruct (new_of k pl) as [nw|]; [|now apply IH].
+  rewrite IH by exact Hq. now apply lookup_dset_other.
+Qed.
+
+Lemma firstn_incl {A} (l : list A) : forall j x, In x (firstn j l) -> In x l.
+Proof.
+  induction l as [|a l IH]; intros [|j] x; simpl; try tauto.
+  intros [H|H]; [now left | right; eauto].
+Qed.
+
+(** every file of [paths] is routed to the in-place path *)
+Definition inplace_mode (m : outmode) (paths : list name) : Prop :=
+  forall p, In p paths -> target p m = None \/ target p m = Some p.
+
+Lemma inplace_mode_ops m paths k pl p :
+  inplace_mode m paths -> In p paths -> file_ops k pl p m = inplace_ops k pl p.
+Proof.
+  intros H Hp. unfold file_ops. destruct (H p Hp) as [-> | ->]; [reflexivity|].
+  now rewrite String.eqb_refl.
+Qed.
+
+(** the directory is that of "the first j files completely rewritten, the others as they
+    were", give or take one extra name [t] that is not an entry of that directory *)
+Definition snap_ok (xf : xform) (k : kind) (paths : list name) (d0 : dir) (s : st) : Prop :=
+  exists j t, j <= List.length paths /\
+    lookup t (apply_new xf k (firstn j paths) d0) = None /\
+    forall q, q <> t -> lookup q (sd s) = lookup q (apply_new xf k (firstn j paths) d0).
+
+Theorem loop_spec nm F xf k m : fresh_namer nm ->
+  forall paths, inplace_mode m paths -> forall n s0,
+  Forall (snap_ok xf k paths (sd s0)) (all_states (run_files nm F xf k m paths n s0)) /\
+  (outc (run_files nm F xf k m paths n s0) = Done ->
+   deq (sd (final (run_files nm F xf k m paths n s0))) (apply_new xf k paths (sd s0))).
+Proof.
+  intros Hf. induction paths as [|p rest IH]; intros Hm n s0.
+  - cbn [run_files]. split.
+    + unfold all_states; simpl. constructor; [|constructor].
+      exists 0, (nm (sd s0) ""). simpl. split; [lia|]. split; [apply Hf | auto].
+    + intros _. apply deq_refl.
+  - assert (Hm' : inplace_mode m rest) by (intros q Hq; apply Hm; now right).
+    cbn [run_files].
+    destruct (lookup p (sd s0)) as [old|] eqn:Ep.
+    2:{ (* not a file: skipped *)
+      destruct (IH Hm' n s0) as [I1 I2]. split.
+      - eapply Forall_impl; [|exact I1]. intros s (j & t & J1 & J2 & J3).
+        exists (S j), t. cbn [firstn apply_new length]. rewrite Ep. split; [lia|]. auto.
+      - intros H. cbn [apply_new]. rewrite Ep. auto. }
+    destruct (xf old) as [pl|] eqn:Ex.
+    2:{ split; [|discriminate].
+        unfold all_states; simpl. constructor; [|constructor].
+        exists 0, (nm (sd s0) ""). simpl. split; [lia|]. split; [apply Hf | auto]. }
+    rewrite (inplace_mode_ops m (p :: rest) k pl p Hm (or_introl eq_refl)).
+    assert (Hs : lookup p (sd s0) <> None) by congruence.
+    pose proof (inplace_spec nm F k pl p s0 n Hf Hs) as S1.
+    set (r1 := run_ops nm F (inplace_ops k pl p) n s0) in *.
+    (* every state of this file's rewrite is a snapshot with j = 0 or j = 1 *)
+    assert (H1 : forall s, okst nm p s0 (new_of k pl) s -> snap_ok xf k (p :: rest) (sd s0) s).
+    { intros s [(A & B)|(nw & E & A & B)].
+      - exists 0, (nm (sd s0) (dirpart p)). simpl. split; [lia|]. split; [apply Hf | exact B].
+      - exists 1, (nm (dset p nw (sd s0)) ""). cbn [firstn apply_new length].
+        rewrite Ep, Ex, E. cbn [apply_new]. split; [lia|]. split; [apply Hf|].
+        intros q _. rewrite B, lookup_dset. reflexivity. }
+    pose proof (sp_states _ _ _ _ _ _ S1) as St.
+    destruct (outc r1) eqn:Ho.
+    + (* this file is done: on to the rest, from a directory that is the start one with p new *)
+      destruct (sp_done _ _ _ _ _ _ S1 Ho) as (nw & E & _ & B).
+      assert (Hd : deq (sd (final r1)) (dset p nw (sd s0))).
+      { intros q. rewrite B, lookup_dset. reflexivity. }
+      destruct (IH Hm' (next r1) (final r1)) as [I1 I2]. split.
+      * rewrite all_states_prepend. apply Forall_app. split.
+        -- unfold all_states in St. apply Forall_app in St. destruct St as [St _].
+           eapply Forall_impl; [|exact St]. exact H1.
+        -- eapply Forall_impl; [|exact I1]. intros s (j & t & J1 & J2 & J3).
+           exists (S j), t. cbn [firstn apply_new length]. rewrite Ep, Ex, E.
+           split; [lia|].
+           pose proof (apply_new_ext xf k (firstn j rest) _ _ Hd) as X. split.
+           ++ rewrite <- X. exact J2.
+           ++ intros q Hq. rewrite <- X. auto.
+      * cbn [prepend outc final]. intros H. cbn [apply_new]. rewrite Ep, Ex, E.
+        intros q. rewrite (I2 H q). apply apply_new_ext. exact Hd.
+    + split; [|intros H; congruence]. eapply Forall_impl; [|exact St]. exact H1.
+    + split; [|intros H; congruence]. eapply Forall_impl; [|exact St]. exact H1.
+    + split; [|intros H; congruence]. eapply Forall_impl; [|exact St]. exact H1.
+Qed.
+
+(** files the glob did not return are never touched *)
+Theorem unmatched_untouched nm F xf k m paths n s0 :
+  fresh_namer nm -> inplace_mode m paths ->
+  Forall (fun s => exists t, forall q, ~ In q paths -> q <> t ->
+                                       lookup q (sd s) = lookup q (sd s0))
+         (all_states (run_files nm F xf k m paths n s0)).
+Proof.
+  intros Hf Hm. destruct (loop_spec nm F xf k m Hf paths Hm n s0) as [H _].
+  eapply Forall_impl; [|exact H]. intros s (j & t & _ & _ & J). exists t. intros q Hq Hq2.
+  rewrite J by exact Hq2. apply apply_new_notin. intros X. apply Hq. eapply firstn_incl; eauto.
+Qed.
